@@ -22,7 +22,38 @@ def opRegex (op : String) (a : Json) : Json :=
     | "re_cost" => jnat (pyCost r s)
     | _ => jerr "bad-op"
 
+/-- regex AST from protocol JSON: "eps" | "bol" | "eol" | ["cls", [[lo,hi],..], neg] | ["cat", a, b] | ["alt", a, b] |
+["star", a] | ["grp", n, a] -/
+instance : Inhabited Re := ⟨.bad⟩
+
+partial def reOfJson : Json → Re
+  | .str "eps" => .eps
+  | .str "bol" => .bol
+  | .str "eol" => .eol
+  | .arr a =>
+    match a.toList with
+    | [.str "cls", .arr rs, .bool neg] =>
+      .cls { ranges := rs.toList.filterMap (fun r => match r with
+              | .arr p => match p.toList with
+                | [lo, hi] => match lo.getNat?, hi.getNat? with
+                  | .ok l, .ok h => some (l, h)
+                  | _, _ => none
+                | _ => none
+              | _ => none), neg := neg }
+    | [.str "cat", x, y] => .cat (reOfJson x) (reOfJson y)
+    | [.str "alt", x, y] => .alt (reOfJson x) (reOfJson y)
+    | [.str "star", x] => .star (reOfJson x)
+    | [.str "grp", n, x] => .grp ((n.getNat?).toOption.getD 0) (reOfJson x)
+    | _ => .bad
+  | _ => .bad
+
+def opAst (a : Json) : Json :=
+  let r := reOfJson (get a "re")
+  let s := getStrD a "s"
+  jopt jcaps (pyMatch r s)
+
 def ops : List (String × (Json → Json)) :=
-  [("re_matches", opRegex "re_matches"), ("re_match", opRegex "re_match"), ("re_cost", opRegex "re_cost")]
+  [("re_matches", opRegex "re_matches"), ("re_match", opRegex "re_match"), ("re_cost", opRegex "re_cost"),
+   ("re_match_ast", opAst)]
 
 end PM.Driver.OpsRegex
